@@ -19,7 +19,7 @@ does not depend on it, so the iterates of both runs coincide).
 Oracle (our own criterion, per block and per iterate):
     e_h = ||Ja - Jn_h||_F / max(1, ||Ja||_F, ||Jn_h||_F)
 a block is wrong iff  min(e_1e-7, e_1e-8) > TOL (1e-5)  *and* the two numerical
-estimates agree with each other: ||Jn_1 - Jn_2||_F / S <= 0.1 * min(e).  When they do
+estimates agree with each other: ||Jn_1 - Jn_2||_F / S <= 0.02 * min(e).  When they do
 not agree, the finite differences are unreliable at that iterate (round-off, or a
 switching surface - yield surface of a viscoplastic flow, `seps` regularisation,
 porosity bound, knot of a piecewise hardening curve - within the stencil): the
@@ -128,9 +128,10 @@ def parse_stream(lines):
 
 
 SWITCH = 1.0e-6
+FD_AGREE = 0.02  # the two numerical Jacobians must agree within 2 % of the mismatch they both show
 
 
-def judge(steps_by_h, groups, pnames, pvars=()):
+def judge(steps_by_h, groups, pnames, pvars=(), fvar=None):
     """steps_by_h: [steps(h0), steps(h1)]; groups: sizes of the increment groups of the unknown vector; pnames: brick
     names of the equivalent strains (p, p0, ...); pvars: [(offset in the unknowns, offset in the state variables)] of
     the equivalent strains.  returns summary dict"""
@@ -181,6 +182,12 @@ def judge(steps_by_h, groups, pnames, pvars=()):
                         why = why or "switching.dp=0"  # `dp > 0` tests (Chaboche 2012, nucleation models), first iterate
                     elif iv0[so] + th * z[zo] <= SWITCH:
                         why = why or "switching.p<=0"  # hardening rules clamp the equivalent strain at 0
+            if fvar is not None and iv0 is not None and fvar[0] < len(z):
+                fmid = iv0[fvar[1]] + th * z[fvar[0]]
+                ff = ia["blocks"].get("dff_ddf")
+                if fmid <= SWITCH or (ff and len(ff[0]) == 1 and ff[0][0] == 1.0 and z[fvar[0]] != 0):
+                    # the porosity is clamped to [0, upper bound] (f equation replaced by f + df = bound)
+                    why = why or "switching.porosity_bound"
             if why:
                 out["excluded"][why] = out["excluded"].get(why, 0) + 1
                 continue
@@ -203,7 +210,7 @@ def judge(steps_by_h, groups, pnames, pvars=()):
                 e2 = float(np.linalg.norm(Ja - J2)) / S
                 e = min(e1, e2)
                 d12 = float(np.linalg.norm(J1 - J2)) / S
-                if e > TOL and d12 > 0.1 * e:
+                if e > TOL and d12 > FD_AGREE * e:
                     out["excluded"]["fd_inconsistent"] = out["excluded"].get("fd_inconsistent", 0) + 1
                     continue
                 if e > out["maxerr"].get(name, -1.0):
@@ -378,13 +385,15 @@ def worker(case_path, out_path):
     if tot != nz:
         groups = [nz] if nz else []
     pn = K.int_variables(prog["cfg"]) if prog.get("cfg") and prog["cfg"].get("flows") else []
-    pvars, zo, so = [], 0, 0
+    pvars, zo, so, fvar = [], 0, 0, None
     for n_, sz in zip(isv["names"], isv["sizes"]):
         if n_.startswith(("EquivalentPlasticStrain", "EquivalentViscoplasticStrain")) and sz == 1 and zo < tot:
             pvars.append((zo, so))
+        if n_ == "Porosity" and zo < tot:
+            fvar = (zo, so)
         zo += sz
         so += sz
-    summ = judge(by_h[:2], groups, pn, pvars)
+    summ = judge(by_h[:2], groups, pn, pvars, fvar)
     res.update({"ok": True, "summary": summ, "output_bytes": size, "run_s": time.time() - t0 - res["build_s"],
                 "isv": isv["names"], "parameters": sorted(defaults)})
     json.dump(res, open(out_path, "w"))
@@ -436,8 +445,8 @@ def gen_loading(rng, cfg, li, force_theta=None):
     L = {"steps": steps, "theta": rng.choice([1.0, 1.0, 0.5, 0.75, rng.uniform(0.5, 1.0)])}
     if force_theta is not None:
         L["theta"] = force_theta
-    elif any("Power" in K.ISO_CHOICES[fl["iso"]] for fl in cfg.get("flows", [])):
-        L["theta"] = 1.0  # known finding C43.jacobian.Power_p0_theta: theta != 1 is left to the probe
+    elif K.needs_theta1(cfg):
+        L["theta"] = 1.0  # known findings C43.jacobian.theta.*: theta != 1 is left to the probes
     if K.is_porous(cfg):
         L["f0"] = rng.choice([1e-3, 5e-3, 2e-2])
     if li >= 2:
@@ -538,10 +547,22 @@ def _flow(**kw):
 PROBES = [
     {"key": "C43.jacobian.Drucker1949_c_ne_1", "blocks": r"^dfeel_ddeel$",
      "cfg": {"sp": "hooke", "flows": [_flow(crit="Drucker1949_probe")], "nuc": None, "variant": 0}},
-    {"key": "C43.jacobian.Power_p0_theta", "blocks": r"^dfp_ddp$", "theta": 0.5,
+    {"key": "C43.jacobian.Cazacu2001_c_ne_1", "blocks": r"^dfeel_ddeel$",
+     "cfg": {"sp": "hooke", "flows": [_flow(crit="Cazacu2001_probe")], "nuc": None, "variant": 0}},
+    {"key": "C43.jacobian.theta.Power_p0", "blocks": r"^dfp_ddp$", "theta": 0.5,
      "cfg": {"sp": "hooke", "flows": [_flow(flow="Norton", iso="Power")], "nuc": None, "variant": 0}},
-    {"key": "C43.jacobian.ChuNeedleman1980_strain_dfn_ddp", "blocks": r"^dff_ddp$",
+    {"key": "C43.jacobian.theta.UserDefinedIsotropicHardening", "blocks": r"^dfp_ddp$", "theta": 0.5,
+     "cfg": {"sp": "hooke", "flows": [_flow(iso="UserDefined")], "nuc": None, "variant": 1}},
+    {"key": "C43.jacobian.theta.StrainRateSensitive", "blocks": r"^dfp_ddp$", "theta": 0.5,
+     "cfg": {"sp": "hooke", "flows": [_flow(iso="SRS_CowperSymonds")], "nuc": None, "variant": 0}},
+    {"key": "C43.jacobian.theta.UserDefinedViscoplasticity_dvp_dp", "blocks": r"^dfp_ddp$", "theta": 0.5,
+     "cfg": {"sp": "hooke", "flows": [_flow(flow="UserDefinedVP", iso="Linear")], "nuc": None, "variant": 1}},
+    {"key": "C43.jacobian.nucleation.ChuNeedleman1980_strain", "blocks": r"^dff_ddp$",
      "cfg": {"sp": "hooke", "flows": [_flow()], "nuc": "CN_strain", "variant": 0}},
+    {"key": "C43.jacobian.nucleation.ChuNeedleman1980_stress", "blocks": r"^dff_ddeel$",
+     "cfg": {"sp": "hooke", "flows": [_flow()], "nuc": "CN_stress", "variant": 0}},
+    {"key": "C43.jacobian.nucleation.PowerLaw_stress", "blocks": r"^dff_ddeel$",
+     "cfg": {"sp": "hooke", "flows": [_flow()], "nuc": "PL_stress", "variant": 0}},
     {"key": "C43.emitted_code.Chaboche2012_Phi", "blocks": r"^$", "build_error": "expected",
      "cfg": {"sp": "hooke", "flows": [_flow(kin="Chaboche2012_Phi")], "nuc": None, "variant": 0}},
 ]
